@@ -56,10 +56,42 @@ def _table_order(p: Program, rep: Report, rule: str, cls: ClassInfo, search: Fun
                 okv = True
             if isinstance(val, ast.ListComp) and len(val.generators) == 1 and isinstance(val.generators[0].iter, ast.Name) and val.generators[0].iter.id == va and not val.generators[0].ifs:
                 okv = True
+            wrong = None
+            acc_name = val.id if isinstance(val, ast.Name) else (ast.unparse(tgt) if isinstance(val, ast.List) and not val.elts else None)
+            if not okv and acc_name is not None:
+                # a list (a local, or the attribute itself starting empty) filled by ONE unconditional append per element of the
+                # arguments, in a plain loop over them
+                def _nearest_loop(n_):
+                    q_ = getattr(n_, "_parent", None)
+                    while q_ is not None and not isinstance(q_, (ast.For, ast.While, ast.AsyncFor)):
+                        q_ = getattr(q_, "_parent", None)
+                    return q_
+                loops = [lp for lp in ast.walk(init.node) if isinstance(lp, ast.For) and isinstance(lp.iter, ast.Name) and lp.iter.id == va]
+                muts = [c for c in ast.walk(init.node) if isinstance(c, ast.Call) and isinstance(c.func, ast.Attribute) and ast.unparse(c.func.value) == acc_name
+                        and c.func.attr in ("append", "insert", "extend", "sort", "reverse", "remove", "pop")]
+                other = [c for c in muts if c.func.attr != "append"]
+                apps = [c for c in muts if c.func.attr == "append"]
+                loops = [lp for lp in loops if any(c is x for c in apps for x in ast.walk(lp))]   # the loop(s) that fill the list
+                if other:
+                    wrong = f"{acc_name}.{other[0].func.attr}(...)"
+                elif len(loops) == 1 and apps:
+                    direct = [c for c in apps if any(isinstance(st_, ast.Expr) and st_.value is c for st_ in loops[0].body)]
+                    jumps = [x for x in ast.walk(loops[0]) if isinstance(x, (ast.Break, ast.Continue)) and _nearest_loop(x) is loops[0]]
+                    if len(apps) == 1 and direct and not jumps and not loops[0].orelse:
+                        okv = True
+                    elif len(direct) < len(apps) or jumps:
+                        wrong = "an append that not every element of the arguments reaches (conditional / skipped by continue or break)"
+            for c in ast.walk(val):
+                if isinstance(c, ast.Call) and isinstance(c.func, ast.Name) and c.func.id in ("sorted", "reversed", "set", "frozenset", "dict"):
+                    wrong = c.func.id + "(...)"
+                if isinstance(c, ast.Subscript) and isinstance(c.slice, ast.Slice) and c.slice.step is not None:
+                    wrong = "a stepped slice"
             if okv:
                 rep.ok(rule, f"self.{attr} is built from the constructor arguments in order")
+            elif wrong is not None:
+                rep.violation(rule, construct(init, node), where(init, node), f"dispatch table is not an order-preserving copy of the constructor arguments ({wrong})")
             else:
-                rep.violation(rule, construct(init, node), where(init, node), "dispatch table is not an order-preserving copy of the constructor arguments")
+                rep.undecide(rule, f"self.{attr} = {ast.unparse(val)[:50]}: how the dispatch table is copied from the constructor arguments is not in the idiom table")
     if not found:
         rep.undecide(rule, f"assignment of self.{attr} not found in {init.fq}")
     for fn in p.all_functions():
@@ -158,6 +190,18 @@ def run(p: Program, rep: Report, tier: str) -> None:
                         accepted = "seg"
                     elif t and f[0] == "cmp" and f[1] == "Eq" and f[3] == ("const", "/") and f[2][0] == "sub" and f[2][1] == ("param", "path") and _is_len(f[2][2], prefix):
                         accepted = "seg"   # path[len(prefix)] == "/" (guarded by a length test elsewhere on the path)
+                # ... or through the remainder `path[len(prefix):]`: empty (the whole path) / its first character is the separator
+                def _rest(t):
+                    return t[0] == "sub" and t[1] == ("param", "path") and t[2][0] == "slice" and _is_len(t[2][1], prefix) and t[2][2] in (("const", None),) and (len(t[2]) < 4 or t[2][3] == ("const", None))
+                for f, t in pa.facts:
+                    if (not t) and _rest(f):
+                        accepted = "eq"      # `not path[len(prefix):]`
+                    elif t and f[0] == "cmp" and f[1] == "Eq" and _rest(f[2]) and f[3] == ("const", ""):
+                        accepted = "eq"
+                    elif t and f[0] == "cmp" and f[1] == "Eq" and f[3] == ("const", "/") and f[2][0] == "sub" and _rest(f[2][1]) and f[2][2] == ("const", 0):
+                        accepted = "seg"     # path[len(prefix):][0] == "/"
+                    elif t and f[0] == "call" and f[1][0] == "attr" and f[1][2] == "startswith" and _rest(f[1][1]) and f[2] == (("const", "/"),):
+                        accepted = "seg"     # path[len(prefix):].startswith("/")
                 if accepted == "bare" and any(_is_len(x, prefix) for f, _t in pa.facts for x in subterms(f) if isinstance(x, tuple) and len(x) >= 3):
                     accepted = "len-form"
         if accepted == "len-form":
